@@ -24,6 +24,8 @@ func checkC18(r *Run) {
 	r.Rule("R5", "the statement parsers agree on consuming one optional trailing ';'", 1)
 	r.Rule("R6", "node identity: the evaluator keeps no table keyed by a token, a line number or source text (a token has no column: two nodes on one line would share an entry)", 1)
 	r.Rule("R7", "lines are only reported: no conditional branch of the token package, the lexer, the parser, the tree or the evaluator is fed by Token.LineNumber or by the lexer's line counter", 1)
+	r.Rule("R8", "the parser does not edit tokens: no store into a field of its current or next token (a comment tag that trims the text behind it is not neutral)", 1)
+	tokenImmutableRule(r, "R8")
 	evaluatorTablesRule(r, "R6")
 	lineDecisionsRule(r, "R7")
 	lx := analyseLexerArms(r.W)
